@@ -78,6 +78,29 @@ impl ErrKind {
             InterpreterError::IllegalDirect => ErrKind::IllegalDirect,
         }
     }
+    pub fn name(self) -> &'static str {
+        match self {
+            ErrKind::SyntaxTokenization => "err:syntax-tokenization",
+            ErrKind::SyntaxUnexpectedToken => "err:syntax-unexpected-token",
+            ErrKind::SyntaxExpectedToken => "err:syntax-expected-token",
+            ErrKind::SyntaxUnexpectedEnd => "err:syntax-unexpected-end",
+            ErrKind::TypeMismatch => "err:type-mismatch",
+            ErrKind::DataTypeMismatch => "err:data-type-mismatch",
+            ErrKind::UndefinedStatement => "err:undefined-statement",
+            ErrKind::StackOverflow => "err:stack-overflow",
+            ErrKind::ArrayTooLarge => "err:array-too-large",
+            ErrKind::OutOfData => "err:out-of-data",
+            ErrKind::ReturnWithoutGosub => "err:return-without-gosub",
+            ErrKind::NextWithoutFor => "err:next-without-for",
+            ErrKind::BadSubscript => "err:bad-subscript",
+            ErrKind::IllegalQuantity => "err:illegal-quantity",
+            ErrKind::Unimplemented => "err:unimplemented",
+            ErrKind::DivisionByZero => "err:division-by-zero",
+            ErrKind::RedimensionedArray => "err:redimensioned-array",
+            ErrKind::CannotContinue => "err:cannot-continue",
+            ErrKind::IllegalDirect => "err:illegal-direct",
+        }
+    }
     pub fn is_syntax(self) -> bool {
         matches!(
             self,
